@@ -137,6 +137,12 @@ func init() {
 			bound: "log_addr filter with 4 operators (contains, !contains, eq, ne) x 6 argument sets (either token, both, an unknown address, a 10-byte fragment, upper-case hex) x aggregation and/or/default x 4 second filters on the event value (none, eq matching either transaction, ne), through the real dig.New -> Filter -> jrpc2.Client.Get -> Insert over 2 blocks x 2 transactions with logs from two contracts, once with the scripted node applying the eth_getLogs address restriction and once ignoring it: the stored rows must be equal",
 		})}
 	})
+	boundedChecks["C05"] = append(boundedChecks["C05"], func(w *World, tier string, seed int, verif string) []boundedResult {
+		return []boundedResult{runHarness(w, verif, tier, seed, harnessSpec{
+			name: "dependencies-derivation", pkg: "shovel/config", pkgName: "config", dir: "deps", files: []string{"deps_bounded_test.go"}, run: "TestVerifDepsBounded",
+			bound: "every assignment of {no reference, reference to A, B or C} to three event inputs and two block fields (4^5 = 1024) x two declaration orders through the real ValidateFix: Dependencies is exactly the set of referenced integrations, each referenced table gets an index on the referenced column, each reference gets the referenced table's name",
+		})}
+	})
 	boundedChecks["C09"] = append(boundedChecks["C09"], func(w *World, tier string, seed int, verif string) []boundedResult {
 		return []boundedResult{runHarness(w, verif, tier, seed, harnessSpec{
 			name: "abi-decode-vs-spec", pkg: "dig", pkgName: "dig", dir: "abi", files: []string{"abi_bounded_test.go"}, run: "TestVerifABIBounded",
